@@ -7,6 +7,14 @@ ids = [p['id'] for p in props]
 
 # id -> (level category, level text, level note, technique, design ref)
 checks = {
+ 'C02': ('exploration',
+   'Two runtime monitors. (1) Lock-step reference model: every api.Entry decision, block type, triggered rule and triggered value on generated arrival histories (virtual clock; default / reused / standalone windows under four global geometries; 1-3 rules; associated rules; batches 0..11; boundary and idle-gap deltas) is compared with an aligned-window model. (2) Cooperative scheduler: 2-4 real goroutines interleaved at the two admission-path yield points (monitor slots before the rule checks and between rule-check and statistic phase); each decision must be consistent with [recorded, recorded+in-path] at the instant of its check and the window excess is bounded by (k_inside-1)*max batch; random walk, PCT and bounded-DFS schedules.',
+   'Trusts ref.Win, the virtual clock and the coop scheduler; window geometry of a rule is taken from the documented reuse rule; interleavings are at slot granularity, sampled (DFS exhaustive only for <=3 pre-emptions of 2 workers).',
+   'runtime reference-model monitor + cooperative-scheduler interleaving monitor on the real slot chain', 'DESIGN.md §3 C02'),
+ 'C04': ('exploration',
+   'Two runtime monitors. (1) 64-bit semaphore reference model stepped in lock-step with api.Entry/Exit histories over several resources (1-3 rules, random exit order, batches over the full uint32 range): decision, triggered rule/value, gauge after every exit/rejection. (2) Cooperative scheduler as for C02: decision consistent with [in-flight, in-flight+in-path], peak in-flight <= N + k_inside - 1.',
+   'Trusts the semaphore model and the coop scheduler; interleavings at slot granularity, sampled (bounded DFS for 2 workers).',
+   'runtime reference-model monitor + cooperative-scheduler interleaving monitor on the real slot chain', 'DESIGN.md §3 C04'),
  'C08': ('exploration',
    'Reference-model monitor: every getter of BucketLeapArray / SlidingWindowMetric / BaseStatNode is compared with a naive aligned-bucket multiset model after every step of generated monotone virtual-time histories (hostile deltas: exact bucket/cycle boundaries, idle gaps beyond the array, near-zero times) over sampled valid geometries, plus an exhaustive constructibility grid. Held on the histories executed, nothing more.',
    'Trusts the 150-line reference model ref.Win and the virtual clock; sequential only (concurrency is C09); geometries and histories are sampled, the grid (13x16)^2 is exhaustive.',
